@@ -603,6 +603,95 @@ def frames(hd):
 
 
 # ------------------------------------------------------------------------------------------------
+# pointing angles: which Angle attribute does to_sigproc write, in which unit does from_sigproc read it back?
+# ------------------------------------------------------------------------------------------------
+POINTING = {"za_start": "zenith", "az_start": "azimuth"}
+ATTR_CODE = {"zenith": 0, "azimuth": 1}
+KEY_CODE = {"za_start": 0, "az_start": 1}
+DEG_UNITS = ("units.deg", "units.degree", "'deg'", "'degree'", "u.deg", "u.degree")
+
+
+def _angle_written(e, key):
+    """expression of a hdr_update entry -> (Header attribute, written in degrees?)"""
+    txt0 = ast.unparse(e)
+    if isinstance(e, ast.Call) and ast.unparse(e.func) == "float" and len(e.args) == 1 and not e.keywords:
+        e = e.args[0]
+    attr = None
+    indeg = None
+    if isinstance(e, ast.Attribute) and isinstance(e.value, ast.Attribute) and ast.unparse(e.value.value) == "self":
+        attr = e.value.attr
+        if e.attr in ("deg", "degree"):
+            indeg = True
+        elif e.attr == "value":
+            indeg = False                                  # the number in whatever unit the Angle is held
+    elif isinstance(e, ast.Call) and isinstance(e.func, ast.Attribute) and e.func.attr == "to_value" and len(e.args) == 1 \
+            and not e.keywords and isinstance(e.func.value, ast.Attribute) and ast.unparse(e.func.value.value) == "self" \
+            and ast.unparse(e.args[0]) in DEG_UNITS:
+        attr, indeg = e.func.value.attr, True
+    elif isinstance(e, ast.Attribute) and e.attr == "value" and isinstance(e.value, ast.Call) and isinstance(e.value.func, ast.Attribute) \
+            and e.value.func.attr == "to" and len(e.value.args) == 1 and ast.unparse(e.value.args[0]) in DEG_UNITS \
+            and isinstance(e.value.func.value, ast.Attribute) and ast.unparse(e.value.func.value.value) == "self":
+        attr, indeg = e.value.func.value.attr, True
+    if attr not in ATTR_CODE or indeg is None:
+        raise Unsupported(f"to_sigproc: '{key}' entry not recognised (self.<zenith|azimuth>.deg / .to_value(units.deg) / .value): {txt0[:80]}")
+    return attr, indeg
+
+
+def _angle_read(e, attr):
+    """from_sigproc entry `Angle(header.get(KEY, 0) * units.deg)` -> KEY"""
+    txt = ast.unparse(e)
+    if not (isinstance(e, ast.Call) and ast.unparse(e.func) == "Angle" and len(e.args) == 1):
+        raise Unsupported(f"from_sigproc: '{attr}' entry is not Angle(...): {txt[:80]}")
+    a = e.args[0]
+    unit_ok = False
+    if isinstance(a, ast.BinOp) and isinstance(a.op, ast.Mult) and ast.unparse(a.right) in DEG_UNITS and not e.keywords:
+        a, unit_ok = a.left, True
+    elif len(e.keywords) == 1 and e.keywords[0].arg == "unit" and ast.unparse(e.keywords[0].value) in DEG_UNITS:
+        unit_ok = True
+    if not unit_ok:
+        raise Unsupported(f"from_sigproc: '{attr}' is not read in degrees: {txt[:80]}")
+    if not (isinstance(a, ast.Call) and ast.unparse(a.func) == "header.get" and len(a.args) == 2 and isinstance(a.args[0], ast.Constant)
+            and a.args[0].value in KEY_CODE and isinstance(a.args[1], ast.Constant) and a.args[1].value == 0):
+        raise Unsupported(f"from_sigproc: '{attr}' entry not Angle(header.get(KEY, 0) * units.deg): {txt[:80]}")
+    return a.args[0].value
+
+
+def pointing(hd):
+    out = ["(* pointing angles.  Header attributes: 0 zenith, 1 azimuth; SIGPROC keys (defined in degrees): 0 za_start, 1 az_start *)"]
+    fn = _function(hd, "to_sigproc", "Header")
+    upd = None
+    for s in _strip_doc(fn):
+        if isinstance(s, ast.Assign) and ast.unparse(s.targets[0]) == "hdr_update" and isinstance(s.value, ast.Dict):
+            upd = s.value
+    if upd is None:
+        raise Unsupported("to_sigproc: hdr_update dict literal not found")
+    entries = {k.value: v for k, v in zip(upd.keys, upd.values) if isinstance(k, ast.Constant)}
+    for key in POINTING:
+        if key not in entries:
+            raise Unsupported(f"to_sigproc: no '{key}' entry in hdr_update")
+        attr, indeg = _angle_written(entries[key], key)
+        out.append(f"(* from Header.to_sigproc: {key} = {ast.unparse(entries[key])} *)")
+        out.append(f"Definition {key}_attr : Z := {ATTR_CODE[attr]}.")
+        out.append(f"Definition {key}_in_deg : bool := {'true' if indeg else 'false'}.  (* false: the raw .value in the Angle's own unit *)")
+    fn = _function(hd, "from_sigproc", "Header")
+    upd = None
+    for s in _strip_doc(fn):
+        if isinstance(s, ast.Assign) and ast.unparse(s.targets[0]) == "hdr_update" and isinstance(s.value, ast.Dict):
+            upd = s.value
+    if upd is None:
+        raise Unsupported("from_sigproc: hdr_update dict literal not found")
+    entries = {k.value: v for k, v in zip(upd.keys, upd.values) if isinstance(k, ast.Constant)}
+    for attr in ("zenith", "azimuth"):
+        if attr not in entries:
+            raise Unsupported(f"from_sigproc: hdr_update has no '{attr}' entry")
+        key = _angle_read(entries[attr], attr)
+        out.append(f"(* from Header.from_sigproc: {attr} = {ast.unparse(entries[attr])}  (read as degrees) *)")
+        out.append(f"Definition {attr}_read_key : Z := {KEY_CODE[key]}.")
+    out.append("")
+    return out
+
+
+# ------------------------------------------------------------------------------------------------
 def gen_c05(repo="/repo"):
     errors = []
     out = ["(* GENERATED by tools/py2coq/gen_c05.py from sigpyproc/io/sigproc.py and sigpyproc/header.py -- do not edit *)",
@@ -651,6 +740,7 @@ def gen_c05(repo="/repo"):
                 f"Definition dec_sec_repr : bool := {b(m['de_fix'] is None)}.\n"]
     section("parse_radec", rd)
     section("frames", lambda: frames(hd))
+    section("pointing", lambda: pointing(hd))
     return "\n".join(out), errors
 
 
